@@ -32,17 +32,41 @@ fn setup_pair() -> (u8, Args) {
     (kani::any(), any_args())
 }
 
-fn covers(op: u8, r: (u64, u64), a: &Args) {
-    kani::cover!(op == OP_REGISTER && r.0 == 0);
-    kani::cover!(op == OP_REGISTER && r.0 == 2);
+/// identical return values, reported per method so that a failure names the method
+fn same_ret(op: u8, r1: (u64, u64), r2: (u64, u64)) {
+    let eq = r1 == r2;
+    match op {
+        OP_REGISTER => assert!(eq, "register_callsite differs"),
+        OP_ENABLED => assert!(eq, "enabled differs"),
+        OP_HINT => assert!(eq, "max_level_hint differs"),
+        OP_NEW_SPAN => assert!(eq, "new_span differs"),
+        OP_EVENT_ENABLED => assert!(eq, "event_enabled differs"),
+        OP_CLONE => assert!(eq, "clone_span differs"),
+        OP_TRY_CLOSE => assert!(eq, "try_close differs"),
+        OP_CURRENT => assert!(eq, "current_span differs"),
+        _ => assert!(eq, "unit-returning method differs"),
+    }
+}
+
+/// bits for `covers`: witnesses that a harness cannot produce because it excludes that method (finding elsewhere)
+const X_NONE: u8 = 0;
+const X_EVENT_ENABLED: u8 = 1;
+const X_ID_CHANGE: u8 = 2;
+const X_REGISTER: u8 = 4;
+const X_HINT: u8 = 8;
+/// cover witnesses; an excluded one degenerates to "reached"
+fn covers(op: u8, r: (u64, u64), a: &Args, ex: u8) {
+    let x = |bit: u8| ex & bit != 0;
+    kani::cover!(x(X_REGISTER) || (op == OP_REGISTER && r.0 == 0));
+    kani::cover!(x(X_REGISTER) || (op == OP_REGISTER && r.0 == 2));
     kani::cover!(op == OP_ENABLED && r.0 == 0);
     kani::cover!(op == OP_ENABLED && r.0 == 1);
-    kani::cover!(op == OP_HINT && r.0 == 6);
-    kani::cover!(op == OP_HINT && r.0 == 3);
+    kani::cover!(x(X_HINT) || (op == OP_HINT && r.0 == 6));
+    kani::cover!(x(X_HINT) || (op == OP_HINT && r.0 == 3));
     kani::cover!(op == OP_NEW_SPAN);
-    kani::cover!(op == OP_EVENT_ENABLED && r.0 == 0);
+    kani::cover!(x(X_EVENT_ENABLED) || (op == OP_EVENT_ENABLED && r.0 == 0));
     kani::cover!(op == OP_EVENT);
-    kani::cover!(op == OP_CLONE && r.0 != a.id1);
+    kani::cover!(x(X_ID_CHANGE) || (op == OP_CLONE && r.0 != a.id1));
     kani::cover!(op == OP_TRY_CLOSE && r.0 == 1);
     kani::cover!(op == OP_CURRENT && r.1 > 100);
 }
@@ -55,10 +79,10 @@ fn collect_wrapper<W: Collect>(w: W, op: u8, a: &Args) {
     let bare = RC(&ROOT_A);
     let r1 = drive(&bare, op, a);
     let r2 = drive(&w, op, a);
-    assert!(r1 == r2);
+    same_ret(op, r1, r2);
     assert!(ROOT_A.same_log(&ROOT_B));
     assert!(ROOT_B.total() == 1);
-    covers(op, r2, a);
+    covers(op, r2, a, X_NONE);
 }
 fn collect_wrapper_reg_dispatch<W: Collect>(w: W) {
     let d = Dispatch::none();
@@ -104,8 +128,10 @@ collect_harnesses!(c09_arc_dyn_collect, c09_arc_dyn_collect_on_register_dispatch
 // ------------------------------------------------------------------------------------------------------------
 // (a) Subscribe wrappers. bare = RL(A1) on RC(ROOT_A); wrapped = W(RL(B1)) on RC(ROOT_B).
 
-/// `skip_kind`: a notification kind whose counter is left out of the log comparison (N_KINDS = none)
-fn layer_wrapper<W: Subscribe<RC>>(w: W, op: u8, a: &Args, skip_kind: usize) {
+/// `skip_kind`: a notification kind whose counter is left out of the log comparison (N_KINDS = none).
+/// No cover witnesses in here: the finding harnesses call this directly (the runner replays the first concrete test
+/// Kani prints, which must be the failing assertion's, not a cover's).
+fn layer_wrapper_core<W: Subscribe<RC>>(w: W, op: u8, a: &Args, skip_kind: usize) -> (u64, u64) {
     kani::assume(op <= OP_REG_DISPATCH);
     let bare = RL(&A1);
     if op == OP_REG_DISPATCH {
@@ -122,15 +148,20 @@ fn layer_wrapper<W: Subscribe<RC>>(w: W, op: u8, a: &Args, skip_kind: usize) {
     if op < N_OPS {
         let r1 = drive(&s1, op, a);
         r2 = drive(&s2, op, a);
-        assert!(r1 == r2);
+        same_ret(op, r1, r2);
     }
-    assert!(A1.same_log_except(&B1, skip_kind));
-    assert!(ROOT_A.same_log(&ROOT_B));
-    covers(op, r2, a);
+    assert!(A1.same_log_except(&B1, skip_kind), "the wrapped layer's call log differs from the bare layer's");
+    assert!(ROOT_A.same_log(&ROOT_B), "the root collector's call log differs");
+    r2
+}
+fn layer_wrapper_x<W: Subscribe<RC>>(w: W, op: u8, a: &Args, skip_kind: usize, ex: u8) {
+    let r2 = layer_wrapper_core(w, op, a, skip_kind);
+    covers(op, r2, a, ex);
     kani::cover!(op == OP_REG_DISPATCH);
     kani::cover!(op == OP_TRY_CLOSE && B1.count(K_CLOSE) == 1);
     kani::cover!(op == OP_ENABLED && ROOT_B.count(K_ENABLED) == 0);
 }
+fn layer_wrapper<W: Subscribe<RC>>(w: W, op: u8, a: &Args, skip_kind: usize) { layer_wrapper_x(w, op, a, skip_kind, X_NONE) }
 
 macro_rules! layer_harness {
     ($name:ident, $unwind:expr, |$op:ident, $a:ident| $body:block) => {
@@ -157,7 +188,7 @@ layer_harness!(c09_box_dyn_subscribe, 2, |op, a| { layer_wrapper(boxed(RL(&B1)),
 layer_harness!(c09_option_some_subscribe, 2, |op, a| { layer_wrapper(Some(RL(&B1)), op, &a, N_KINDS) });
 layer_harness!(c09_vec1_subscribe, 3, |op, a| {
     vec_excluded(op);
-    layer_wrapper(vec![RL(&B1)], op, &a, N_KINDS)
+    layer_wrapper_x(vec![RL(&B1)], op, &a, N_KINDS, X_EVENT_ENABLED | X_ID_CHANGE)
 });
 // reload::Subscriber does not forward `on_subscribe` (finding): that counter is excluded here
 layer_harness!(c09_reload_subscribe, 2, |op, a| { layer_wrapper(reloadable(RL(&B1)), op, &a, K_ON_SUBSCRIBE) });
@@ -179,11 +210,11 @@ layer_harness!(c09_box_dyn_of_box_dyn, 2, |op, a| {
 });
 layer_harness!(c09_vec1_of_box_dyn, 3, |op, a| {
     vec_excluded(op);
-    layer_wrapper(vec![boxed(RL(&B1))], op, &a, N_KINDS)
+    layer_wrapper_x(vec![boxed(RL(&B1))], op, &a, N_KINDS, X_EVENT_ENABLED | X_ID_CHANGE)
 });
 layer_harness!(c09_some_of_vec1, 3, |op, a| {
     vec_excluded(op);
-    layer_wrapper(Some(vec![RL(&B1)]), op, &a, N_KINDS)
+    layer_wrapper_x(Some(vec![RL(&B1)]), op, &a, N_KINDS, X_EVENT_ENABLED | X_ID_CHANGE)
 });
 layer_harness!(c09_reload_of_some, 2, |op, a| { layer_wrapper(reloadable(Some(RL(&B1))), op, &a, K_ON_SUBSCRIBE) });
 layer_harness!(c09_box_dyn_of_reload, 2, |op, a| {
@@ -195,14 +226,13 @@ layer_harness!(c09_some_of_identity_stack, 2, |op, a| {
 });
 
 // --- findings: one forwarding omission per harness
-layer_harness!(c09_vec1_event_enabled, 3, |_op, a| { layer_wrapper(vec![RL(&B1)], OP_EVENT_ENABLED, &a, N_KINDS) });
+layer_harness!(c09_vec1_event_enabled, 3, |_op, a| { let _ = layer_wrapper_core(vec![RL(&B1)], OP_EVENT_ENABLED, &a, N_KINDS); });
 layer_harness!(c09_vec1_on_id_change, 3, |_op, a| {
     kani::assume(ld64(&ROOT_A.ans_clone_id) != 0 && ld64(&ROOT_A.ans_clone_id) != a.id1);
-    layer_wrapper(vec![RL(&B1)], OP_CLONE, &a, N_KINDS)
+    let _ = layer_wrapper_core(vec![RL(&B1)], OP_CLONE, &a, N_KINDS);
 });
 layer_harness!(c09_reload_on_subscribe, 2, |op, a| {
-    kani::assume(op == OP_EVENT);
-    layer_wrapper(reloadable(RL(&B1)), op, &a, N_KINDS)
+    let _ = layer_wrapper_core(reloadable(RL(&B1)), OP_EVENT, &a, N_KINDS);
 });
 /// F6: a stack (`Layered` used as a collector) is told about dispatcher registration, none of its layers nor the
 /// root collector hears of it.
@@ -217,15 +247,29 @@ layer_harness!(c09_layered_collect_on_register_dispatch, 2, |_op, _a| {
 // ------------------------------------------------------------------------------------------------------------
 // (b) None / empty Vec behave as absent
 
-/// `with` vs `without`: two collectors that must be indistinguishable
-fn absent_check<S1: Collect, S2: Collect>(without: &S1, with: &S2, op: u8, a: &Args) {
+/// `with` vs `without`: two collectors that must be indistinguishable.
+/// `exact_hint = false`: for `max_level_hint` only "the stack with the `None` is never tighter" is asserted (the exact
+/// equality is asserted by a finding harness of its own, see `c09_none_*_max_level_hint`).
+fn absent_core<S1: Collect, S2: Collect>(without: &S1, with: &S2, op: u8, a: &Args, exact_hint: bool) -> (u64, u64) {
     kani::assume(op < N_OPS);
     let r1 = drive(without, op, a);
     let r2 = drive(with, op, a);
-    assert!(r1 == r2);
-    assert!(A1.same_log(&B1));
-    assert!(ROOT_A.same_log(&ROOT_B));
-    covers(op, r2, a);
+    if op == OP_HINT && !exact_hint {
+        // codes: OFF = 0 .. TRACE = 5, no hint = 6: looser or equal
+        assert!(r2.0 >= r1.0, "None layer tightened the hint");
+    } else {
+        same_ret(op, r1, r2);
+    }
+    assert!(A1.same_log(&B1), "the neighbouring layer's call log differs");
+    assert!(ROOT_A.same_log(&ROOT_B), "the root collector's call log differs");
+    r2
+}
+fn absent_check_x<S1: Collect, S2: Collect>(without: &S1, with: &S2, op: u8, a: &Args, exact_hint: bool, ex: u8) {
+    let r2 = absent_core(without, with, op, a, exact_hint);
+    covers(op, r2, a, ex);
+}
+fn absent_check<S1: Collect, S2: Collect>(without: &S1, with: &S2, op: u8, a: &Args, exact_hint: bool) {
+    absent_check_x(without, with, op, a, exact_hint, X_NONE)
 }
 fn none() -> Option<RL> { None }
 fn empty() -> Vec<RL> { Vec::new() }
@@ -235,70 +279,81 @@ fn empty_vec_excluded(op: u8) {
 }
 
 layer_harness!(c09_none_alone, 2, |op, a| {
-    absent_check(&RC(&ROOT_A), &none().with_collector(RC(&ROOT_B)), op, &a)
+    absent_check(&RC(&ROOT_A), &none().with_collector(RC(&ROOT_B)), op, &a, true)
 });
 layer_harness!(c09_none_outer, 2, |op, a| {
     let s1 = RL(&A1).with_collector(RC(&ROOT_A));
     let s2 = Subscribe::<RC>::and_then(RL(&B1), none()).with_collector(RC(&ROOT_B));
-    absent_check(&s1, &s2, op, &a)
+    absent_check(&s1, &s2, op, &a, false)
 });
 layer_harness!(c09_none_inner, 2, |op, a| {
     let s1 = RL(&A1).with_collector(RC(&ROOT_A));
     let s2 = Subscribe::<RC>::and_then(none(), RL(&B1)).with_collector(RC(&ROOT_B));
-    absent_check(&s1, &s2, op, &a)
+    absent_check(&s1, &s2, op, &a, false)
 });
 layer_harness!(c09_none_outer_collect, 2, |op, a| {
     let s1 = RL(&A1).with_collector(RC(&ROOT_A));
     let s2 = none().with_collector(RL(&B1).with_collector(RC(&ROOT_B)));
-    absent_check(&s1, &s2, op, &a)
+    absent_check(&s1, &s2, op, &a, true)
 });
 layer_harness!(c09_none_inner_collect, 2, |op, a| {
     let s1 = RL(&A1).with_collector(RC(&ROOT_A));
     let s2 = RL(&B1).with_collector(none().with_collector(RC(&ROOT_B)));
-    absent_check(&s1, &s2, op, &a)
+    absent_check(&s1, &s2, op, &a, false)
 });
 layer_harness!(c09_none_both_sides, 2, |op, a| {
     let s1 = RL(&A1).with_collector(RC(&ROOT_A));
     let s2 = Subscribe::<RC>::and_then(Subscribe::<RC>::and_then(none(), RL(&B1)), none()).with_collector(RC(&ROOT_B));
-    absent_check(&s1, &s2, op, &a)
+    absent_check(&s1, &s2, op, &a, false)
 });
 layer_harness!(c09_none_boxed_dyn, 2, |op, a| {
     let s1 = RL(&A1).with_collector(RC(&ROOT_A));
     let n: DynSub = Box::new(none());
     let s2 = Subscribe::<RC>::and_then(RL(&B1), n).with_collector(RC(&ROOT_B));
-    absent_check(&s1, &s2, op, &a)
+    absent_check(&s1, &s2, op, &a, false)
 });
 layer_harness!(c09_none_reload, 2, |op, a| {
     let s1 = RL(&A1).with_collector(RC(&ROOT_A));
     let s2 = Subscribe::<RC>::and_then(RL(&B1), reloadable(none())).with_collector(RC(&ROOT_B));
-    absent_check(&s1, &s2, op, &a)
+    absent_check(&s1, &s2, op, &a, false)
 });
 layer_harness!(c09_vec_empty_alone, 2, |op, a| {
     empty_vec_excluded(op);
-    absent_check(&RC(&ROOT_A), &empty().with_collector(RC(&ROOT_B)), op, &a)
+    absent_check_x(&RC(&ROOT_A), &empty().with_collector(RC(&ROOT_B)), op, &a, true, X_REGISTER | X_HINT)
 });
 layer_harness!(c09_vec_empty_outer, 2, |op, a| {
     empty_vec_excluded(op);
     let s1 = RL(&A1).with_collector(RC(&ROOT_A));
     let s2 = Subscribe::<RC>::and_then(RL(&B1), empty()).with_collector(RC(&ROOT_B));
-    absent_check(&s1, &s2, op, &a)
+    absent_check_x(&s1, &s2, op, &a, true, X_REGISTER | X_HINT)
 });
 layer_harness!(c09_vec_empty_inner, 2, |op, a| {
     empty_vec_excluded(op);
     let s1 = RL(&A1).with_collector(RC(&ROOT_A));
     let s2 = Subscribe::<RC>::and_then(empty(), RL(&B1)).with_collector(RC(&ROOT_B));
-    absent_check(&s1, &s2, op, &a)
+    absent_check_x(&s1, &s2, op, &a, true, X_REGISTER | X_HINT)
+});
+// findings: a `None` next to a layer on a root collector that is not the Registry loosens the stack's hint
+layer_harness!(c09_none_tree_max_level_hint, 2, |_op, a| {
+    let s1 = RL(&A1).with_collector(RC(&ROOT_A));
+    let s2 = Subscribe::<RC>::and_then(RL(&B1), none()).with_collector(RC(&ROOT_B));
+    let _ = absent_core(&s1, &s2, OP_HINT, &a, true);
+});
+layer_harness!(c09_none_inner_collect_max_level_hint, 2, |_op, a| {
+    let s1 = RL(&A1).with_collector(RC(&ROOT_A));
+    let s2 = RL(&B1).with_collector(none().with_collector(RC(&ROOT_B)));
+    let _ = absent_core(&s1, &s2, OP_HINT, &a, true);
 });
 // findings: an empty Vec next to a layer
 layer_harness!(c09_vec_empty_register_callsite, 2, |_op, a| {
     let s1 = RL(&A1).with_collector(RC(&ROOT_A));
     let s2 = Subscribe::<RC>::and_then(RL(&B1), empty()).with_collector(RC(&ROOT_B));
-    absent_check(&s1, &s2, OP_REGISTER, &a)
+    let _ = absent_core(&s1, &s2, OP_REGISTER, &a, true);
 });
 layer_harness!(c09_vec_empty_max_level_hint, 2, |_op, a| {
     let s1 = RL(&A1).with_collector(RC(&ROOT_A));
     let s2 = Subscribe::<RC>::and_then(RL(&B1), empty()).with_collector(RC(&ROOT_B));
-    absent_check(&s1, &s2, OP_HINT, &a)
+    let _ = absent_core(&s1, &s2, OP_HINT, &a, true);
 });
 
 // ------------------------------------------------------------------------------------------------------------
@@ -353,35 +408,37 @@ fn stack_oracle<S: Collect>(stack: &S, ls: &[&'static Rec], op: u8, a: &Args) {
     match op {
         OP_ENABLED => {
             let (ok, all) = veto_chain(K_ENABLED, &|x: &Rec| ld8(&x.ans_enabled) != 0);
-            assert!(ok);
+            assert!(ok, "enabled: asked outside-in up to the first veto");
             assert!((r.0 == 1) == all);
             kani::cover!(all);
             kani::cover!(!all && root.count(K_ENABLED) == 0);
         }
         OP_EVENT_ENABLED => {
             let (ok, all) = veto_chain(K_EVENT_ENABLED, &|x: &Rec| ld8(&x.ans_event_enabled) != 0);
-            assert!(ok);
+            assert!(ok, "event_enabled: asked outside-in up to the first veto");
             assert!((r.0 == 1) == all);
             kani::cover!(!all && root.count(K_EVENT_ENABLED) == 0);
         }
         OP_REGISTER => {
-            // asked from the outside in, up to and including the first `never`. Answer: `sometimes` if a layer
-            // outside that `never` said `sometimes` (the filters are then re-evaluated per event), else `never`
-            // if there was one, else `always`.
+            // Asked from the outside in: every element up to and including the first `never` exactly once; what lies
+            // inside a `never` is asked at most once (a list stops there; in a tree an outer `sometimes` masks the
+            // inner `never` and the root is still told about the callsite). Answer: `sometimes` if an element outside
+            // the first `never` said `sometimes` (filters are then re-evaluated per event), else `never` if there
+            // was one, else `always`.
             let mut ok = true;
             let mut alive = true;
             let mut some = false;
             let mut j = 0;
             while j <= n {
                 let x: &Rec = if j < n { ls[j] } else { root };
-                ok = ok && x.count(K_REGISTER) == (alive as usize);
+                ok = ok && (if alive { x.count(K_REGISTER) == 1 } else { x.count(K_REGISTER) <= 1 });
                 if alive {
                     let i = ld8(&x.ans_interest);
                     if i == 0 { alive = false; } else if i == 1 { some = true; }
                 }
                 j += 1;
             }
-            assert!(ok);
+            assert!(ok, "register_callsite: who was asked");
             let expected = if some { 1 } else if !alive { 0 } else { 2 };
             assert!(r.0 == expected);
             kani::cover!(r.0 == 2);
@@ -463,30 +520,30 @@ fn l3() -> RL { RL(&A3) }
 fn root() -> RC { RC(&ROOT_A) }
 fn then<C: Collect, X: Subscribe<C>, Y: Subscribe<C>>(inner: X, outer: Y) -> Layered<Y, X, C> { inner.and_then(outer) }
 
-stack_harness!(c09_stack1, 2, |op, a| { stack_oracle(&l1().with_collector(root()), &[&A1], op, &a) });
+stack_harness!(c09_stack1, 3, |op, a| { stack_oracle(&l1().with_collector(root()), &[&A1], op, &a) });
 // two layers: as a tree (Subscribe for Layered) and as a list (Collect for Layered twice)
-stack_harness!(c09_stack2_tree, 3, |op, a| { stack_oracle(&then(l1(), l2()).with_collector(root()), &[&A2, &A1], op, &a) });
-stack_harness!(c09_stack2_list, 3, |op, a| {
+stack_harness!(c09_stack2_tree, 4, |op, a| { stack_oracle(&then(l1(), l2()).with_collector(root()), &[&A2, &A1], op, &a) });
+stack_harness!(c09_stack2_list, 4, |op, a| {
     stack_oracle(&l2().with_collector(l1().with_collector(root())), &[&A2, &A1], op, &a)
 });
 // three layers, every nesting
-stack_harness!(c09_stack3_tree_left, 4, |op, a| {
+stack_harness!(c09_stack3_tree_left, 5, |op, a| {
     stack_oracle(&then(then(l1(), l2()), l3()).with_collector(root()), &[&A3, &A2, &A1], op, &a)
 });
-stack_harness!(c09_stack3_tree_right, 4, |op, a| {
+stack_harness!(c09_stack3_tree_right, 5, |op, a| {
     stack_oracle(&then(l1(), then(l2(), l3())).with_collector(root()), &[&A3, &A2, &A1], op, &a)
 });
-stack_harness!(c09_stack3_list, 4, |op, a| {
+stack_harness!(c09_stack3_list, 5, |op, a| {
     stack_oracle(&l3().with_collector(l2().with_collector(l1().with_collector(root()))), &[&A3, &A2, &A1], op, &a)
 });
-stack_harness!(c09_stack3_tree_on_list, 4, |op, a| {
+stack_harness!(c09_stack3_tree_on_list, 5, |op, a| {
     stack_oracle(&then(l2(), l3()).with_collector(l1().with_collector(root())), &[&A3, &A2, &A1], op, &a)
 });
-stack_harness!(c09_stack3_list_on_tree, 4, |op, a| {
+stack_harness!(c09_stack3_list_on_tree, 5, |op, a| {
     stack_oracle(&l3().with_collector(then(l1(), l2()).with_collector(root())), &[&A3, &A2, &A1], op, &a)
 });
 // wrapped elements inside a stack
-stack_harness!(c09_stack3_wrapped, 4, |op, a| {
+stack_harness!(c09_stack3_wrapped, 5, |op, a| {
     let s = then(then(Some(l1()), boxed(l2())), reloadable(l3())).with_collector(root());
     // reload::Subscriber does not forward on_subscribe (finding reload_on_subscribe): give A3 the missing count
     A3.hit(K_ON_SUBSCRIBE, 0, 0);
@@ -499,12 +556,13 @@ stack_harness!(c09_stack3_tree_register_dispatch, 4, |_op, _a| {
     t.on_register_dispatch(&d);
     assert!(A1.count(K_REG_DISPATCH) == 1 && A2.count(K_REG_DISPATCH) == 1 && A3.count(K_REG_DISPATCH) == 1);
     assert!(A1.total() == 1 && A2.total() == 1 && A3.total() == 1);
+    kani::cover!(A3.seq() != A1.seq());
 });
 
 // ------------------------------------------------------------------------------------------------------------
 // (d) Filter wrappers: bare = FilterProbe(RF(A1)), wrapped = FilterProbe(W(RF(B1))), both on a root collector
 
-fn filter_wrapper<W: Filter<RC> + 'static>(w: W, op: u8, a: &Args) {
+fn filter_core<W: Filter<RC> + 'static>(w: W, op: u8, a: &Args) -> ((u64, u64), (u8, u8)) {
     kani::assume(op < N_OPS);
     let s1 = FilterProbe(RF(&A1)).with_collector(RC(&ROOT_A));
     let s2 = FilterProbe(w).with_collector(RC(&ROOT_B));
@@ -514,18 +572,23 @@ fn filter_wrapper<W: Filter<RC> + 'static>(w: W, op: u8, a: &Args) {
     PROBE_EVENT_ENABLED.store(9, Ordering::Relaxed);
     let r2 = drive(&s2, op, a);
     let p2 = (ld8(&PROBE_ENABLED), ld8(&PROBE_EVENT_ENABLED));
-    assert!(r1 == r2);
-    assert!(p1 == p2);
-    assert!(A1.same_log(&B1));
+    same_ret(op, r1, r2);
+    assert!(p1 == p2, "the filter's enabled / event_enabled verdict differs");
+    assert!(A1.same_log(&B1), "the wrapped filter's call log differs from the bare filter's");
     assert!(ROOT_A.same_log(&ROOT_B));
+    (r2, p2)
+}
+fn filter_wrapper_x<W: Filter<RC> + 'static>(w: W, op: u8, a: &Args, ex: u8) {
+    let (r2, p2) = filter_core(w, op, a);
     kani::cover!(op == OP_ENABLED && p2.0 == 0);
     kani::cover!(op == OP_ENABLED && p2.0 == 1);
-    kani::cover!(op == OP_EVENT_ENABLED && p2.1 == 0);
+    kani::cover!(ex & X_EVENT_ENABLED != 0 || (op == OP_EVENT_ENABLED && p2.1 == 0));
     kani::cover!(op == OP_REGISTER && r2.0 == 0);
     kani::cover!(op == OP_HINT && r2.0 == 2);
     kani::cover!(op == OP_TRY_CLOSE && B1.count(K_CLOSE) == 1);
     kani::cover!(op == OP_NEW_SPAN && B1.count(K_NEW_SPAN) == 1);
 }
+fn filter_wrapper<W: Filter<RC> + 'static>(w: W, op: u8, a: &Args) { filter_wrapper_x(w, op, a, X_NONE) }
 layer_harness!(c09_filter_option_some, 2, |op, a| { filter_wrapper(Some(RF(&B1)), op, &a) });
 layer_harness!(c09_filter_box_dyn, 2, |op, a| {
     let w: BoxFilter = Box::new(RF(&B1));
@@ -538,9 +601,9 @@ layer_harness!(c09_filter_arc_dyn, 2, |op, a| {
 // reload::Subscriber<F> as a Filter does not forward `event_enabled` (finding)
 layer_harness!(c09_filter_reload, 2, |op, a| {
     kani::assume(op != OP_EVENT_ENABLED);
-    filter_wrapper(reloadable(RF(&B1)), op, &a)
+    filter_wrapper_x(reloadable(RF(&B1)), op, &a, X_EVENT_ENABLED)
 });
-layer_harness!(c09_filter_reload_event_enabled, 2, |_op, a| { filter_wrapper(reloadable(RF(&B1)), OP_EVENT_ENABLED, &a) });
+layer_harness!(c09_filter_reload_event_enabled, 2, |_op, a| { let _ = filter_core(reloadable(RF(&B1)), OP_EVENT_ENABLED, &a); });
 layer_harness!(c09_filter_some_of_box_dyn, 2, |op, a| {
     let w: BoxFilter = Box::new(RF(&B1));
     filter_wrapper(Some(w), op, &a)
@@ -574,6 +637,7 @@ layer_harness!(c09_filter_option_none, 2, |op, a| {
 #[kani::stub(core::fmt::write, fmt_write_stub)]
 fn c09_reach() {
     let (op, a) = setup_pair();
+    B1.any_answers();
     kani::assume(op == OP_ENABLED);
     let s2 = Subscribe::<RC>::and_then(vec![RL(&B1)], boxed(RL(&A1))).with_collector(RC(&ROOT_B));
     let r = drive(&s2, op, &a);
